@@ -219,6 +219,7 @@ type Universe struct {
 	genConsts map[string]bool
 	epochs    map[int]epochRel
 	accessed  map[string]bool
+	epochAlloc map[int]string // allocation counter at the creation of an epoch
 }
 
 // epochRel: how the components of an epoch relate to those of its parent epoch (nothing known when regions is nil)
@@ -236,7 +237,7 @@ type epochEdge struct {
 
 func newUniverse() *Universe {
 	u := &Universe{declSet: map[string]bool{}, structs: map[string]*types.Struct{}, anon: map[string]string{},
-		typeIDs: map[string]int{}, faTags: map[string]int{}, compSort: map[string]string{}, mapKinds: map[string][2]string{}, boxes: map[string]bool{}, genConsts: map[string]bool{}, epochs: map[int]epochRel{}, accessed: map[string]bool{}}
+		typeIDs: map[string]int{}, faTags: map[string]int{}, compSort: map[string]string{}, mapKinds: map[string][2]string{}, boxes: map[string]bool{}, genConsts: map[string]bool{}, epochs: map[int]epochRel{}, accessed: map[string]bool{}, epochAlloc: map[int]string{}}
 	u.decl("Slice", "(declare-datatypes ((Slice 0)) (((mk_slice (sl_arr Int) (sl_off Int) (sl_len Int) (sl_cap Int)))))")
 	u.decl("Iface", "(declare-datatypes ((Iface 0)) (((mk_iface (if_t Int) (if_v Int)))))")
 	u.decl("ftag", "(declare-fun ftag (Int) Int)")
@@ -598,7 +599,7 @@ func (u *Universe) declCompConst(name string, e int) string {
 			parent := u.declCompConst(name, m.epoch)
 			u.decls = append(u.decls, fmt.Sprintf("(assert (=> %s (= %s %s)))", m.cond, cn, parent))
 		}
-	} else if ok && rel.regions != nil && strings.Contains(name, "$") {
+	} else if ok && rel.regions != nil && strings.Contains(name, "$") && !machineryPartition(name) {
 		parent := u.declCompConst(name, rel.parent)
 		var in []string
 		for _, r := range rel.regions {
@@ -614,6 +615,11 @@ func (u *Universe) declCompConst(name string, e int) string {
 		// the nil map has an empty domain in every state
 		ks := u.compSort[name][len("(Array Int ") : len(u.compSort[name])-1]
 		u.decls = append(u.decls, fmt.Sprintf("(assert (= (select %s 0) ((as const %s) false)))", cn, ks))
+	}
+	if al, ok := u.epochAlloc[e]; ok && e > 0 && strings.Contains(name, "$") {
+		if f := wfFormula(kindOfComp(name), cn, al); f != "" {
+			u.decls = append(u.decls, "(assert "+f+")")
+		}
 	}
 	if e == 0 {
 		switch kindOfComp(name) {
